@@ -84,7 +84,10 @@ TYPES: list[tuple] = [
     ("VARIANT", "json", "any"), ("OBJECT", "json", "object"), ("ARRAY", "json", "array"),
 ]
 PATHS = ["literal", "literal_multi", "pyformat", "qmark", "executemany", "insert_select", "ctas", "clone", "insert_select_cast", "ctas_cast",
-         "write_pandas", "write_pandas_subset", "write_pandas_permuted", "write_pandas_auto", "write_pandas_chunked"]
+         "write_pandas", "write_pandas_subset", "write_pandas_permuted", "write_pandas_auto", "write_pandas_chunked", "write_pandas_zoned"]
+
+
+ZONES = ["Asia/Kolkata", "America/New_York", "Europe/London", "+09:30", "Pacific/Chatham", "UTC"]
 
 
 def pool(fam: str, extra: Any, r: random.Random) -> list:
@@ -130,13 +133,19 @@ def gen_cases(tier: str, seed: int):
                     continue
                 if path.endswith("_cast") and fam not in ("int", "dec", "float", "str", "date", "time", "ntz", "bool"):
                     continue
+                if path == "write_pandas_zoned" and fam != "tz":
+                    continue
                 pl = pool(fam, extra, r)
+                if path == "write_pandas_zoned":
+                    # a datetime64[ns, zone] column holds 1677..2262 only
+                    pl = [v for v in pl if 1700 <= v.year <= 2250]
                 k = r.randint(5, 8) if tier == "quick" else r.randint(3, 10)
                 vals = r.sample(pl, min(k, len(pl)))
                 # NULL placement
                 for _ in range(r.choice([0, 1, 1, 2])):
                     vals.insert(r.randint(0, len(vals)), None)
-                yield core.jsonable({"type": ti, "path": path, "vals": _enc(vals, fam), "decimal_notation": fam == "float" and r.random() < 0.25})
+                yield core.jsonable({"type": ti, "path": path, "vals": _enc(vals, fam), "decimal_notation": fam == "float" and r.random() < 0.25,
+                                     "zone": r.choice(ZONES)})
 
 
 def _enc(vals: list, fam: str) -> list:
@@ -317,7 +326,7 @@ def run_case(case: dict, env: core.Env) -> None:
     famc = f"{fam}{'' if fam != 'dec' else ('-scale0' if extra[1] == 0 else '-scaled')}"
     form = {"literal": "literal", "literal_multi": "literal", "pyformat": "client-bound", "executemany": "client-bound", "qmark": "qmark",
             "write_pandas": "write_pandas", "write_pandas_subset": "write_pandas", "write_pandas_permuted": "write_pandas",
-            "write_pandas_chunked": "write_pandas"}.get(path, path)
+            "write_pandas_chunked": "write_pandas", "write_pandas_zoned": "write_pandas"}.get(path, path)
     DECIMAL_NOTATION[0] = bool(case.get("decimal_notation"))
     if DECIMAL_NOTATION[0] and fam == "float" and form in ("literal", "insert_select", "ctas", "clone", "insert_select_cast", "ctas_cast"):
         form += ":decimal-notation"
@@ -403,6 +412,15 @@ def run_case(case: dict, env: core.Env) -> None:
                 df = pd.DataFrame(data)
                 df.index = [7 + 3 * ((j * 5) % max(len(rows), 1)) for j in range(len(rows))] if len(rows) % 2 else list(range(100, 100 + len(rows)))
                 args = {"chunk_size": 2}
+            elif path == "write_pandas_zoned":
+                # the same instants as a time-zone-aware datetime64 column of some other zone than UTC
+                zone = case.get("zone", "Asia/Kolkata")
+                tzobj = datetime.timezone(datetime.timedelta(hours=9, minutes=30)) if zone == "+09:30" else zone
+                naive = pd.Series(pd.to_datetime([None if v is None else v.replace(tzinfo=None) for v in pv]))
+                data["V"] = naive.dt.tz_localize("UTC").dt.tz_convert(tzobj)
+                data["EXTRA"] = [None] * len(rows)
+                df = pd.DataFrame(data)
+                args = {}
             else:
                 data["V"] = col
                 data["EXTRA"] = [None] * len(rows)
